@@ -9,7 +9,13 @@ m = {"version": 1, "setup_cmd": "./setup.sh",
                "baseline_off_cmd": "cd /repo && go test -vet=off -count=1 ./...", "source_commits": [], "add_only": True},
      "engines": [
          {"name": "ssajson", "path": "tools/ssajson", "serves_properties": sorted(CHECKS), "kind_free_text": "go/packages + go/ssa (x/tools v0.29.0) dump of /repo's current tree as JSON, regenerated on every run"},
-         {"name": "gosym", "path": "engine/gosym.py", "serves_properties": sorted(CHECKS), "kind_free_text": "symbolic interpreter for the SSA dump over z3 terms (decision-replay path exploration, bit-vector semantics, panics as path ends)"},
+         {"name": "gosym", "path": "engine/gosym.py", "serves_properties": sorted(CHECKS), "kind_free_text": "symbolic interpreter for the SSA dump over z3 terms (decision-replay path exploration, bit-vector semantics, panics as path ends, loop cut points, taint mode, write-set log); stdlib models in engine/models.py"},
+         {"name": "asmsym", "path": "engine/asmsym.py", "serves_properties": ["C05", "C06", "C07", "C09", "C10", "C11", "C17", "C18"], "kind_free_text": "symbolic interpreter for the amd64 assembler listing (go tool asm -S of the current tree): region-relative addresses, AVX-512/GFNI/VPCLMULQDQ semantics, GF(2)-affine value domain, taint mode, access log"},
+         {"name": "arm64sym", "path": "engine/arm64sym.py", "serves_properties": ["C05", "C06", "C07", "C09", "C10", "C11", "C17"], "kind_free_text": "symbolic interpreter for the arm64 (NEON) assembler listing; composed with the arm64 Go glue (go/ssa GOARCH=arm64) through checks/arm64lib.py"},
+         {"name": "asmbridge", "path": "engine/asmbridge.py", "serves_properties": ["C05", "C06", "C07", "C09", "C10", "C11", "C17"], "kind_free_text": "executes body-less Go functions of package sm4 in the assembly interpreters on regions that mirror the gosym heap (slice length, not capacity, bounds the region)"},
+         {"name": "intprove", "path": "engine/intprove.py", "serves_properties": ["C01", "C02", "C03", "C12", "C15", "C19"], "kind_free_text": "integer-level prover: linear abstraction with hypothesis-product lemmas (unsat = proof), NIA / pinned models for counterexamples, cvc5 as second opinion"},
+         {"name": "intmode", "path": "engine/intmode.py", "serves_properties": ["C16"], "kind_free_text": "integer mode for word-by-word Montgomery code: one exact linear equation per bits.Add64/Sub64/Mul64, shared word products"},
+         {"name": "sm2model", "path": "engine/sm2model.py", "serves_properties": ["C01", "C02", "C03", "C10", "C12", "C13", "C17", "C19"], "kind_free_text": "protocol-level contracts (group layer, comparison, reader stub with fault schedules, hash object) used when the SM2 entry points are executed; each contract is discharged by C14/C15/C16/C20/C04"},
      ],
      "checks": [], "notes": "Solver-based checking of the real code; see DESIGN.md. ./check <id> --tier quick|thorough",
      "not_applicable": []}
